@@ -325,7 +325,7 @@ def r4_rejection(ctx: Ctx) -> None:
     gm = ctx.repo.func(MAPPING, "Bus.get_mapping_for_bank")
     rets = returns_of(gm.node)
     got = canon(gm.node, rets[0].value) if len(rets) == 1 else None
-    ctx.check(got == f"self.mappings[self.lookup[{gm.params()[1]}]]", "Bus.get_mapping_for_bank", f"plain subscripts: an unmapped bank raises KeyError; found `{got}`")
+    ctx.check(got == f"self.mappings[self.lookup[{gm.params()[1]}]]", "Bus.get_mapping_for_bank", f"plain subscripts: an unmapped bank raises KeyError; found `{got}`", fact=".get(" in got or "next(" in got)
     for t in [n for n in walk_no_nested(gm.node) if isinstance(n, ast.Try)]:
         ctx.fail("Bus.get_mapping_for_bank:try", "a handler can turn an unmapped bank into some mapping")
     ram_has_no_offset(ctx)
